@@ -88,6 +88,7 @@ pub fn replay_fun(property: &str, scenario: &str, input: &serde_json::Value) -> 
         return c18::replay_fun(input);
     }
     match property {
+        "C04" => c04::replay_fun(scenario, input),
         "C05" => c05::replay_fun(scenario, input),
         "C06" if scenario == "fun:c06-unread-output" => life::c06_unread_case(input["cap"].as_u64().unwrap_or(2560) as usize, input["source"].as_str().unwrap_or("both")),
         "C14" => c14::replay_fun(scenario, input),
